@@ -372,6 +372,22 @@ func prop(c Case) error {
 		if got := b2.Overlaps(ol, b1); got != want {
 			return fmt.Errorf("Overlaps(%v) reversed = %v, closed-interval arithmetic says %v", ol, got, want)
 		}
+		// a box against itself (one object on both sides): it overlaps itself exactly when
+		// it is not empty in any dimension asked about
+		for _, pair := range []struct {
+			name string
+			b    *geom.Bounds
+		}{{"b1", b1}, {"b2", b2}} {
+			self := true
+			for i := 0; i < ol.Stride(); i++ {
+				if !(pair.b.Min(i) <= pair.b.Max(i)) {
+					self = false
+				}
+			}
+			if got := pair.b.Overlaps(ol, pair.b); got != self {
+				return fmt.Errorf("%s.Overlaps(%v, %s) (the same box on both sides) = %v, closed-interval arithmetic says %v", pair.name, ol, pair.name, got, self)
+			}
+		}
 		p := geom.Coord(model.Floats(c.P))
 		wantP := true
 		for i := 0; i < ol.Stride(); i++ {
